@@ -72,17 +72,24 @@ func (i *interpreter) spawn(fr *frame, pos token.Pos, fn value, args []value) {
 }
 
 // runnable lists goroutines (other than self) that can continue.
+// runnable lists the other goroutines that can run, starting with the cyclic successor of self: the default
+// policy (choice 0) is therefore round-robin, under which every goroutine makes progress between two turns of any
+// other one (a lowest-id-first default starves late goroutines and leaves most of their states to deviations).
 func (i *interpreter) runnable(self *gor) []*gor {
-	var out []*gor
+	var after, before []*gor
 	for _, g := range i.gors {
 		if g == self || g.done {
 			continue
 		}
 		if g.waiting == nil || g.waiting() {
-			out = append(out, g)
+			if self != nil && g.id > self.id {
+				after = append(after, g)
+			} else {
+				before = append(before, g)
+			}
 		}
 	}
-	return out
+	return append(after, before...)
 }
 
 func (i *interpreter) pick(c []*gor) *gor {
